@@ -1,7 +1,320 @@
-//! C10 operations (op names start with `c10.`)
-#[allow(unused_imports)]
+//! C10 — modular inversion and gcd (op names start with `c10.`)
+//!
+//! Fixed widths 1,2,3,4,6,8,16,32 limbs (concrete aliases: the `PrecomputeInverter` impls exist per
+//! alias), `BoxedUint` at any limb count given on the line.
 use crate::util::*;
+use crypto_bigint::modular::{
+    BoxedMontyForm, BoxedMontyParams, ConstMontyForm, ConstMontyParams, MontyForm, MontyParams,
+};
+use crypto_bigint::{
+    BoxedUint, Gcd, InvMod, Invert, Inverter, NonZero, Odd, PrecomputeInverter, U64, U128, U192, U256,
+    U384, U512, U1024, U2048, impl_modulus,
+};
+use subtle::CtOption;
 
-pub fn dispatch(_op: &str, _a: &[&str]) -> Option<String> {
+fn opt<T>(o: Option<T>, f: impl Fn(&T) -> String) -> String {
+    match o {
+        Some(v) => f(&v),
+        None => "none".into(),
+    }
+}
+
+fn flag(s: &str) -> Option<bool> {
+    match s {
+        "0" => Some(false),
+        "1" => Some(true),
+        _ => None,
+    }
+}
+
+macro_rules! impl_fixed {
+    ($name:ident, $U:ty, $N:expr) => {
+        fn $name(op: &str, a: &[&str]) -> Option<String> {
+            type U = $U;
+            const N: usize = $N;
+            Some(match (op, a) {
+                ("c10.u.inv_mod2k", [x, k]) => {
+                    let r: Option<U> = arg!(uint::<N>(x)).inv_mod2k(arg!(dec32(k))).into();
+                    opt(r, uhex)
+                }
+                ("c10.u.inv_mod2k_vartime", [x, k]) => {
+                    let r: Option<U> = arg!(uint::<N>(x)).inv_mod2k_vartime(arg!(dec32(k))).into();
+                    opt(r, uhex)
+                }
+                ("c10.u.inv_mod", [x, m]) => {
+                    let r: Option<U> = arg!(uint::<N>(x)).inv_mod(&arg!(uint::<N>(m))).into();
+                    opt(r, uhex)
+                }
+                ("c10.u.inv_mod_trait", [x, m]) => {
+                    let r: CtOption<U> = InvMod::inv_mod(&arg!(uint::<N>(x)), &arg!(uint::<N>(m)));
+                    opt(Option::<U>::from(r), uhex)
+                }
+                // modulus ZERO through the option-returning forms (own op name: known finding, DESIGN §7 row 8)
+                ("c10.u.inv_mod_m0", [x, form]) => {
+                    let x = arg!(uint::<N>(x));
+                    let r: Option<U> = match arg!(dec(form)) {
+                        0 => x.inv_mod(&U::ZERO).into(),
+                        1 => InvMod::inv_mod(&x, &U::ZERO).into(),
+                        _ => return Some(BAD.into()),
+                    };
+                    opt(r, uhex)
+                }
+                ("c10.u.inv_odd_mod", [x, m]) => {
+                    let m = Odd::new(arg!(uint::<N>(m))).unwrap();
+                    let r: Option<U> = arg!(uint::<N>(x)).inv_odd_mod(&m).into();
+                    opt(r, uhex)
+                }
+                ("c10.u.inverter", [m, x, vt]) => {
+                    let m = Odd::new(arg!(uint::<N>(m))).unwrap();
+                    let x = arg!(uint::<N>(x));
+                    let inv = m.precompute_inverter();
+                    let r: Option<U> = if arg!(flag(vt)) { inv.invert_vartime(&x) } else { inv.invert(&x) }.into();
+                    opt(r, uhex)
+                }
+                ("c10.u.monty_inv", [m, x, form]) => {
+                    let m = Odd::new(arg!(uint::<N>(m))).unwrap();
+                    let x = arg!(uint::<N>(x));
+                    let params = MontyParams::new(m);
+                    let mf = MontyForm::new(&x, params);
+                    let r: Option<MontyForm<N>> = match arg!(dec(form)) {
+                        0 => mf.inv().into(),
+                        1 => mf.inv_vartime().into(),
+                        2 => Invert::invert(&mf).into(),
+                        3 => Invert::invert_vartime(&mf).into(),
+                        4 => params.precompute_inverter().invert(&mf).into(),
+                        5 => params.precompute_inverter().invert_vartime(&mf).into(),
+                        _ => return Some(BAD.into()),
+                    };
+                    // "the retrieved values multiply to 1": print the retrieved inverse, and make
+                    // sure the product in Montgomery form retrieves 1 mod m as well
+                    match r {
+                        Some(i) => {
+                            let prod = (mf * i).retrieve();
+                            let one = U::ONE.rem_vartime(m.as_nz_ref());
+                            if prod != one {
+                                format!("product-not-one:{}", uhex(&prod))
+                            } else {
+                                uhex(&i.retrieve())
+                            }
+                        }
+                        None => "none".into(),
+                    }
+                }
+                ("c10.i.inv_odd_mod", [x, m]) => {
+                    let m = Odd::new(arg!(uint::<N>(m))).unwrap();
+                    let r: Option<U> = arg!(int::<N>(x)).inv_odd_mod(&m).into();
+                    opt(r, uhex)
+                }
+                ("c10.i.inv_mod", [x, m]) => {
+                    let m = NonZero::new(arg!(uint::<N>(m))).unwrap();
+                    let r: Option<U> = InvMod::inv_mod(&arg!(int::<N>(x)), &m).into();
+                    opt(r, uhex)
+                }
+                ("c10.u.gcd", [x, y]) => uhex(&arg!(uint::<N>(x)).gcd(&arg!(uint::<N>(y)))),
+                ("c10.u.gcd_trait", [x, y, vt]) => {
+                    let (x, y) = (arg!(uint::<N>(x)), arg!(uint::<N>(y)));
+                    uhex(&if arg!(flag(vt)) { Gcd::gcd_vartime(&x, &y) } else { Gcd::gcd(&x, &y) })
+                }
+                ("c10.u.gcd_int", [x, y, vt]) => {
+                    let (x, y) = (arg!(uint::<N>(x)), arg!(int::<N>(y)));
+                    uhex(&if arg!(flag(vt)) { Gcd::gcd_vartime(&x, &y) } else { Gcd::gcd(&x, &y) })
+                }
+                ("c10.i.gcd", [x, y, vt]) => {
+                    let (x, y) = (arg!(int::<N>(x)), arg!(int::<N>(y)));
+                    uhex(&if arg!(flag(vt)) { Gcd::gcd_vartime(&x, &y) } else { Gcd::gcd(&x, &y) })
+                }
+                ("c10.i.gcd_uint", [x, y, vt]) => {
+                    let (x, y) = (arg!(int::<N>(x)), arg!(uint::<N>(y)));
+                    uhex(&if arg!(flag(vt)) { Gcd::gcd_vartime(&x, &y) } else { Gcd::gcd(&x, &y) })
+                }
+                ("c10.u.odd_gcd", [f, g, form]) => {
+                    let f = Odd::new(arg!(uint::<N>(f))).unwrap();
+                    let g = arg!(uint::<N>(g));
+                    // `impl Gcd<Uint> for Odd<Uint>` (src/uint/gcd.rs:63) is bounded on
+                    // `Odd<Odd<Uint>>: PrecomputeInverter`, which no type satisfies: the trait forms
+                    // cannot be called; only the inherent `gcd_vartime` exists (form 2).
+                    uhex(&match arg!(dec(form)) {
+                        2 => f.gcd_vartime(&g),
+                        _ => return Some(BAD.into()),
+                    })
+                }
+                _ => return None,
+            })
+        }
+    };
+}
+
+impl_fixed!(fixed1, U64, 1);
+impl_fixed!(fixed2, U128, 2);
+impl_fixed!(fixed3, U192, 3);
+impl_fixed!(fixed4, U256, 4);
+impl_fixed!(fixed6, U384, 6);
+impl_fixed!(fixed8, U512, 8);
+impl_fixed!(fixed16, U1024, 16);
+impl_fixed!(fixed32, U2048, 32);
+
+// ---- ConstMontyForm: compile-time moduli (tools/gen/c10.py CONST_MODULI must list the same values)
+impl_modulus!(CM0, U64, "ffffffffffffffff"); // 3·5·17·257·641·65537·6700417
+impl_modulus!(CM1, U128, "7fffffffffffffffffffffffffffffff"); // 2^127 - 1, prime
+impl_modulus!(CM2, U256, "ffffffff00000000ffffffffffffffffbce6faada7179e84f3b9cac2fc632551"); // P-256 order
+impl_modulus!(
+    CM3,
+    U384,
+    "fffffffffffffffffffffffffffffffffffffffffffffffffffffffffffffffeffffffff0000000000000000ffffffff"
+); // P-384 field prime
+impl_modulus!(CM4, U192, "000000000000000000000000000000000000000000000003"); // tiny modulus in a wide type
+impl_modulus!(CM5, U64, "0000000000000001"); // modulus 1
+
+macro_rules! const_monty {
+    ($M:ty, $N:expr, $x:expr, $form:expr) => {{
+        let x = arg!(uint::<$N>($x));
+        let mf = ConstMontyForm::<$M, $N>::new(&x);
+        let r: Option<ConstMontyForm<$M, $N>> = match $form {
+            0 => mf.inv().into(),
+            1 => mf.inv_vartime().into(),
+            2 => Invert::invert(&mf).into(),
+            3 => Invert::invert_vartime(&mf).into(),
+            4 => <$M>::precompute_inverter().invert(&mf).into(),
+            5 => <$M>::precompute_inverter().invert_vartime(&mf).into(),
+            6 => <$M>::precompute_inverter().inv(&mf).into(),
+            7 => <$M>::precompute_inverter().inv_vartime(&mf).into(),
+            _ => return Some(BAD.into()),
+        };
+        match r {
+            Some(i) => {
+                let prod = (mf * i).retrieve();
+                let one = ConstMontyForm::<$M, $N>::ONE.retrieve();
+                if prod != one { format!("product-not-one:{}", uhex(&prod)) } else { uhex(&i.retrieve()) }
+            }
+            None => "none".into(),
+        }
+    }};
+}
+
+fn const_monty_dispatch(n: usize, m: &str, x: &str, form: usize) -> Option<String> {
+    Some(match (n, m) {
+        (1, "ffffffffffffffff") => const_monty!(CM0, 1, x, form),
+        (2, "7fffffffffffffffffffffffffffffff") => const_monty!(CM1, 2, x, form),
+        (4, "ffffffff00000000ffffffffffffffffbce6faada7179e84f3b9cac2fc632551") => const_monty!(CM2, 4, x, form),
+        (6, "fffffffffffffffffffffffffffffffffffffffffffffffffffffffffffffffeffffffff0000000000000000ffffffff") => {
+            const_monty!(CM3, 6, x, form)
+        }
+        (3, "3") => const_monty!(CM4, 3, x, form),
+        (1, "1") => const_monty!(CM5, 1, x, form),
+        _ => BAD.into(),
+    })
+}
+
+fn bopt(r: CtOption<BoxedUint>) -> String {
+    opt(Option::<BoxedUint>::from(r), bhex)
+}
+
+fn boxed_ops(op: &str, a: &[&str]) -> Option<String> {
+    Some(match (op, a) {
+        ("c10.b.inv_mod2k", [n, x, k]) => {
+            let (v, c) = arg!(boxed(x, arg!(dec(n)))).inv_mod2k(arg!(dec32(k)));
+            if bool::from(c) { bhex(&v) } else { "none".into() }
+        }
+        ("c10.b.inv_mod2k_vartime", [n, x, k]) => {
+            let (v, c) = arg!(boxed(x, arg!(dec(n)))).inv_mod2k_vartime(arg!(dec32(k)));
+            if bool::from(c) { bhex(&v) } else { "none".into() }
+        }
+        ("c10.b.inv_mod", [n, x, m]) => {
+            let n = arg!(dec(n));
+            bopt(arg!(boxed(x, n)).inv_mod(&arg!(boxed(m, n))))
+        }
+        ("c10.b.inv_mod_trait", [n, x, m]) => {
+            let n = arg!(dec(n));
+            bopt(InvMod::inv_mod(&arg!(boxed(x, n)), &arg!(boxed(m, n))))
+        }
+        ("c10.b.inv_odd_mod", [n, x, m]) => {
+            let n = arg!(dec(n));
+            let m = Odd::new(arg!(boxed(m, n))).unwrap();
+            bopt(arg!(boxed(x, n)).inv_odd_mod(&m))
+        }
+        ("c10.b.inv_odd_mod_mixed", [lx, x, lm, m]) => {
+            let m = Odd::new(arg!(boxed(m, arg!(dec(lm))))).unwrap();
+            bopt(arg!(boxed(x, arg!(dec(lx)))).inv_odd_mod(&m))
+        }
+        ("c10.b.inverter", [n, m, x, vt]) => {
+            let n = arg!(dec(n));
+            let m = Odd::new(arg!(boxed(m, n))).unwrap();
+            let x = arg!(boxed(x, n));
+            let inv = m.precompute_inverter();
+            bopt(if arg!(flag(vt)) { inv.invert_vartime(&x) } else { inv.invert(&x) })
+        }
+        ("c10.b.monty_inv", [n, m, x, form]) => {
+            let n = arg!(dec(n));
+            let m = Odd::new(arg!(boxed(m, n))).unwrap();
+            let x = arg!(boxed(x, n));
+            let params = BoxedMontyParams::new(m.clone());
+            let mf = BoxedMontyForm::new(x, params.clone());
+            let r: Option<BoxedMontyForm> = match arg!(dec(form)) {
+                0 => mf.invert().into(),
+                1 => mf.invert_vartime().into(),
+                2 => Invert::invert(&mf).into(),
+                3 => Invert::invert_vartime(&mf).into(),
+                4 => params.precompute_inverter().invert(&mf).into(),
+                5 => params.precompute_inverter().invert_vartime(&mf).into(),
+                _ => return Some(BAD.into()),
+            };
+            match r {
+                Some(i) => {
+                    let prod = (&mf * &i).retrieve();
+                    let one = BoxedUint::one_with_precision(m.bits_precision()).rem_vartime(m.as_nz_ref());
+                    if prod != one { format!("product-not-one:{}", bhex(&prod)) } else { bhex(&i.retrieve()) }
+                }
+                None => "none".into(),
+            }
+        }
+        ("c10.b.gcd", [n, x, y, vt]) => {
+            let n = arg!(dec(n));
+            let (x, y) = (arg!(boxed(x, n)), arg!(boxed(y, n)));
+            bhex(&if arg!(flag(vt)) { Gcd::gcd_vartime(&x, &y) } else { Gcd::gcd(&x, &y) })
+        }
+        ("c10.b.odd_gcd", [n, f, g, vt]) => {
+            let n = arg!(dec(n));
+            let f = Odd::new(arg!(boxed(f, n))).unwrap();
+            let g = arg!(boxed(g, n));
+            bhex(&if arg!(flag(vt)) { Gcd::gcd_vartime(&f, &g) } else { Gcd::gcd(&f, &g) })
+        }
+        ("c10.b.gcd_mixed", [lx, x, ly, y, vt]) => {
+            let (x, y) = (arg!(boxed(x, arg!(dec(lx)))), arg!(boxed(y, arg!(dec(ly)))));
+            bhex(&if arg!(flag(vt)) { Gcd::gcd_vartime(&x, &y) } else { Gcd::gcd(&x, &y) })
+        }
+        ("c10.b.odd_gcd_mixed", [lf, f, lg, g, vt]) => {
+            let f = Odd::new(arg!(boxed(f, arg!(dec(lf))))).unwrap();
+            let g = arg!(boxed(g, arg!(dec(lg))));
+            bhex(&if arg!(flag(vt)) { Gcd::gcd_vartime(&f, &g) } else { Gcd::gcd(&f, &g) })
+        }
+        _ => return None,
+    })
+}
+
+pub fn dispatch(op: &str, a: &[&str]) -> Option<String> {
+    if op.starts_with("c10.b.") {
+        return boxed_ops(op, a);
+    }
+    if op == "c10.c.monty_inv" {
+        if let [n, m, x, form] = a {
+            return const_monty_dispatch(arg!(dec(n)), m, x, arg!(dec(form)));
+        }
+        return Some(BAD.into());
+    }
+    if (op.starts_with("c10.u.") || op.starts_with("c10.i.")) && !a.is_empty() {
+        let n = arg!(dec(a[0]));
+        let rest = &a[1..];
+        return match n {
+            1 => fixed1(op, rest),
+            2 => fixed2(op, rest),
+            3 => fixed3(op, rest),
+            4 => fixed4(op, rest),
+            6 => fixed6(op, rest),
+            8 => fixed8(op, rest),
+            16 => fixed16(op, rest),
+            32 => fixed32(op, rest),
+            _ => Some("unsupported-width".to_string()),
+        };
+    }
     None
 }
